@@ -47,6 +47,11 @@ def ann_py(a):
     return "K%d" % a[1]
   if k == "typec":
     return "type[K%d]" % a[1]
+  if k == "typeu":
+    opts = ["K%d" % i for i in a[1]] + [_PY_ANN[b] for b in a[2]]
+    if len(opts) == 2 and opts[1] == "None":
+      return "type[Optional[%s]]" % opts[0]
+    return "type[Union[%s]]" % ", ".join(opts)
   if k == "opt":
     return "Optional[%s]" % ann_py(a[1])
   if k == "union":
@@ -69,6 +74,8 @@ def ann_tok(a):
     return k
   if k in ("cls", "typec"):
     return "%s %d" % (k, a[1])
+  if k == "typeu":
+    return "typeu %d %s %d %s" % (len(a[1]), " ".join(map(str, a[1])), len(a[2]), " ".join(a[2]))
   if k == "opt":
     return "opt " + ann_tok(a[1])
   if k in ("union", "tup"):
@@ -82,7 +89,7 @@ def ann_tok(a):
 
 def ann_depth(a):
   k = a[0]
-  if k in _PY_ANN or k in ("cls", "typec"):
+  if k in _PY_ANN or k in ("cls", "typec", "typeu"):
     return 0
   if k in ("union", "tup"):
     return 1 + max([ann_depth(x) for x in a[1]] + [0])
@@ -285,6 +292,18 @@ def member(x, a, env):
     return isinstance(x, env["K%d" % a[1]])
   if k == "typec":
     return isinstance(x, type) and issubclass(x, env["K%d" % a[1]])
+  if k == "typeu":
+    # a class object inhabits type[Union[..]] iff it is a subclass of an option (numeric promotion int -> float ->
+    # complex applies to the builtin scalar classes as it does to their instances)
+    if not isinstance(x, type):
+      return False
+    if any(issubclass(x, env["K%d" % i]) for i in a[1]):
+      return True
+    pyt = {"int": int, "float": float, "complex": complex, "str": str, "bytes": bytes, "bool": bool, "none": type(None)}
+    for b in a[2]:
+      if issubclass(x, pyt[b]) or (b == "float" and issubclass(x, int)) or (b == "complex" and issubclass(x, (int, float))):
+        return True
+    return False
   if k == "typeany":
     return isinstance(x, type)
   if k == "callable":
@@ -326,8 +345,29 @@ def oracle(bases, ann, val, env=None):
 # ----------------------------------------------------------------------------------------------
 # generators (all randomness from the rng passed in)
 # ----------------------------------------------------------------------------------------------
+TYPEU_SCALARS = ["int", "float", "complex", "str", "bool", "none"]
+
+
+def gen_typeu(rng, prefer=None):
+  """`type[Union[...]]` over user classes and builtin scalar classes (>= 2 options)"""
+  while True:
+    ks = sorted(rng.sample(range(NCLS), rng.choice([0, 1, 1, 2])))
+    bs = rng.sample(TYPEU_SCALARS, rng.choice([0, 1, 1, 2]))
+    if prefer is not None and rng.random() < 0.5:
+      if isinstance(prefer, int) and prefer not in ks:
+        ks = sorted(ks + [prefer])
+      elif isinstance(prefer, str) and prefer not in bs:
+        bs = bs + [prefer]
+    if "none" in bs:  # printed last (type[Optional[K]])
+      bs = [b for b in bs if b != "none"] + ["none"]
+    if len(ks) + len(bs) >= 2:
+      return ("typeu", ks, bs)
+
+
 def atom_anns():
-  return [(s,) for s in SCALAR_ANNS] + [("cls", i) for i in range(NCLS)] + [("typec", i) for i in range(NCLS)]
+  fixed = [("typeu", [0, 2], []), ("typeu", [1], ["int"]), ("typeu", [], ["int", "str"]), ("typeu", [], ["float", "str"]),
+           ("typeu", [0], ["none"]), ("typeu", [NCLS - 1], ["bool", "complex"])]
+  return ([(s,) for s in SCALAR_ANNS] + [("cls", i) for i in range(NCLS)] + [("typec", i) for i in range(NCLS)] + fixed)
 
 
 def gen_ann(rng, depth):
@@ -338,7 +378,9 @@ def gen_ann(rng, depth):
       return (rng.choice(SCALAR_ANNS),)
     if r < 0.87:
       return ("cls", rng.randrange(NCLS))
-    return ("typec", rng.randrange(NCLS))
+    if r < 0.94:
+      return ("typec", rng.randrange(NCLS))
+    return gen_typeu(rng)
   k = rng.choice(GEN1 + GEN2 + ["opt", "union", "union", "tup", "tup"])
   if k in GEN1 or k == "opt":
     return (k, gen_ann(rng, depth - 1))
@@ -438,6 +480,8 @@ def ann_near(rng, v, depth, noise=0.12):
       "func": ["callable", "object", "typeany", "any"],
       "bclsobj": ["typeany", "callable", "object", "int", "str"],
   }
+  if k == "bclsobj" and rng.random() < 0.5:
+    return gen_typeu(rng, prefer=v[1] if v[1] in TYPEU_SCALARS else None)
   if k in table:
     if k in ("str", "bytes") and depth > 0 and rng.random() < 0.45:
       return (rng.choice(["seq", "iter", "coll"]),
@@ -450,7 +494,8 @@ def ann_near(rng, v, depth, noise=0.12):
                        ("callable",), ("typec", v[1])])
   if k == "clsobj":
     return rng.choice([("typec", v[1]), ("typec", rng.randrange(NCLS)), ("typec", rng.randrange(NCLS)), ("typeany",),
-                       ("callable",), ("cls", v[1]), ("object",)])
+                       ("callable",), ("cls", v[1]), ("object",), gen_typeu(rng, prefer=v[1]), gen_typeu(rng),
+                       gen_typeu(rng)])
   raise ValueError(v)
 
 
@@ -498,6 +543,11 @@ def gen_member(rng, a, mros, depth, need_hashable=False):
   if k in ("cls", "typec"):
     subs = [c for c in range(len(mros)) if a[1] in mros[c]]
     return ("inst" if k == "cls" else "clsobj", rng.choice(subs))
+  if k == "typeu":
+    cands = [("clsobj", c) for c in range(len(mros)) if any(i in mros[c] for i in a[1])]
+    sub = {"int": ["int", "bool"], "float": ["float", "int", "bool"], "complex": ["float", "int", "bool"], "bool": ["bool"]}
+    cands += [("bclsobj", x) for b in a[2] for x in sub.get(b, [])]
+    return rng.choice(cands) if cands else None
   if k == "opt":
     return ("none",) if rng.random() < 0.4 else gen_member(rng, a[1], mros, depth, need_hashable)
   if k == "union":
@@ -833,7 +883,7 @@ def multi_display(v):
 
 
 def is_flat_ann(a):
-  return a[0] in _PY_ANN or a[0] in ("cls", "typec")
+  return a[0] in _PY_ANN or a[0] in ("cls", "typec", "typeu")
 
 
 def tojson(x):
